@@ -156,7 +156,9 @@ class LetFiller(Visitor):
         """Return the value for the given constant defined either in the
         override_dict or in the circuit itself."""
         if const.name in self.override_dict:
-            return self.override_dict[const.name]
+            # Like a let statement, an override with an integral floating
+            # point value (e.g. 2.0) denotes the integer.
+            return circuitbuilder.as_integer(self.override_dict[const.name])
         if isinstance(const.value, (int, float)):
             return const.value
         else:
